@@ -1,5 +1,6 @@
 import Driver.Canon
 import Bisquitt.Model.IdSeq
+import Bisquitt.Spec.Match
 
 namespace Driver
 open Bisquitt
@@ -95,5 +96,41 @@ def storeLine (line : String) : List String :=
   if bad.isEmpty then [] else
     [s!"DIFF store first-mismatch=[{bad.head!}] line=[{line.take 400}]",
      s!"MON C29 store-not-a-map first-mismatch=[{bad.head!}] line=[{line.take 400}]"]
+
+end Driver
+
+namespace Driver
+open Bisquitt
+
+def joinLevels (ls : List Bytes) : Bytes :=
+  match ls with
+  | [] => []
+  | l :: rest => rest.foldl (fun acc x => acc ++ [0x2F] ++ x) l
+
+def matchLine (specMatch : List Bytes → List Bytes → Bool) (line : String) : List String :=
+  match line.splitOn " => " with
+  | [lhs, impl] =>
+    match words lhs with
+    | ["K", f, n] =>
+      match parseHex f, parseHex n with
+      | some fb, some nb =>
+        let fr := splitTopic fb
+        let nr := splitTopic nb
+        let model := s!"{b01 (matchRoute fr nr)} {fr.length} {nr.length}"
+        let d := if model == impl then [] else [s!"DIFF match {lhs} impl=[{impl}] model=[{model}]"]
+        let m := match words impl with
+          | [r, _, _] => if r == b01 (specMatch fr nr) then [] else
+              [s!"MON C27 filter-match filter={f} topic={n} impl={r} mqtt-rules={b01 (specMatch fr nr)}"]
+          | _ => [s!"BADLINE {line}"]
+        d ++ m
+      | _, _ => [s!"BADLINE {line}"]
+    | ["L", f] =>
+      match parseHex f with
+      | some fb =>
+        let model := hexOf (joinLevels (splitTopic fb))
+        if model == impl then [] else [s!"DIFF match join {lhs} impl=[{impl}] model=[{model}]"]
+      | none => [s!"BADLINE {line}"]
+    | _ => [s!"BADLINE {line}"]
+  | _ => if line.startsWith "#" || line.isEmpty then [] else [s!"BADLINE {line}"]
 
 end Driver
